@@ -123,8 +123,35 @@ def check(ctx):
         ctx.guard("C14.c DATA-CHECK", name, lambda: check_data_calls(ctx, pkg, name), "")
     ctx.guard("C14.c DATA-CHECK", "check_data", lambda: check_check_data(ctx), "")
     ctx.guard("C14.d NONEMPTY", "boundary", lambda: check_nonempty(ctx), "")
+    ctx.guard("C14.d NONEMPTY", "dp-candidates", lambda: shared_dp_candidates(ctx), "")
     ctx.expect_min("C14.a VALIDATION-TABLE", sum(1 for o in ctx.obs if o.rule == "C14.a VALIDATION-TABLE" and o.status == "HOLDS"), 24)
     ctx.expect_min("C14.c DATA-CHECK", sum(1 for o in ctx.obs if o.rule == "C14.c DATA-CHECK" and o.status == "HOLDS"), 12)
+
+
+def shared_dp_candidates(ctx):
+    """The dynamic programmes take argmin / argmax over a candidate set in every step: `carried starts + [t + 1 - m]`,
+    which is non-empty by construction because the newest admissible start has just been appended.  A filter moved in
+    front of the evaluation can empty it for a documented-valid boundary configuration (max_segment_length ==
+    min_segment_length) and `np.argmax` of an empty sequence raises for every input.  The candidate-set obligations of
+    C02.b / C03.c BELLMAN are re-run under the C14 id."""
+    from . import c02, c03
+
+    for mod, tag in ((c02, "C02"), (c03, "C03")):
+        before = len(ctx.obs)
+        mins = dict(ctx.mins)
+        try:
+            mod.check(ctx)
+        except Undecided as u:
+            ctx.undecided("C14.d NONEMPTY", f"dp-candidates|{tag}", "", str(u))
+        ctx.mins = mins
+        kept = []
+        for o in ctx.obs[before:]:
+            if o.status == "UNDECIDED" and o.key == "instance-count":
+                continue
+            if "BELLMAN" in o.rule and ("candidates" in o.key or "initial-starts" in o.key):
+                o.rule = f"C14.d NONEMPTY ({o.rule})"
+                kept.append(o)
+        ctx.obs[before:] = kept
 
 
 def ctor_paths(ctx, cls, overrides=None):
